@@ -1533,6 +1533,37 @@ class ConstMap:
         return len(self.d)
 
 
+class IntTable:
+    """a constant list/tuple of ints read with a symbolic index: the lookup becomes an ite chain (e.g. a 256-entry CRC table)"""
+
+    def __init__(self, vals):
+        self.vals = list(vals)
+
+    def __len__(self):
+        return len(self.vals)
+
+    def __iter__(self):
+        return iter(self.vals)
+
+    def __getitem__(self, i):
+        if not isinstance(i, SymInt):
+            return self.vals[i]
+        n = len(self.vals)
+        W = max(fit(v) for v in self.vals) if self.vals else 2
+        it = sx(i.t, max(i.w, fit(n)))
+        inrange = False
+        if z3.is_app_of(i.t, z3.Z3_OP_BAND):       # x & const with 0 <= const < n is in range by construction
+            for a in i.t.children():
+                if z3.is_bv_value(a) and 0 <= a.as_signed_long() < n:
+                    inrange = True
+        if not inrange and not ENG.decide(z3.And(it >= 0, it < n)):
+            raise IndexError("tuple index out of range")
+        res = bv(self.vals[0], W)
+        for k in range(1, n):
+            res = z3.If(it == k, bv(self.vals[k], W), res)
+        return SymInt(res)
+
+
 class Poison:
     """an unmergeable dead temporary: fails only if it is used"""
 
